@@ -382,6 +382,12 @@ theorem run_good (W : World) :
     split at h
     · simp at h
     · exact ih _ _ h hwf hg
+  | convTo decl imm next ih =>
+    intro c c' h hwf hg
+    simp only [run] at h
+    split at h
+    · simp at h
+    · exact ih _ _ h hwf hg
   | upd po tag next ih =>
     intro c c' h hwf hg
     simp only [run] at h
